@@ -74,6 +74,11 @@ class RaggedSys(System):
         if colour == 's3':
             x = payload.values('G', 3, at, dt)
             return x, x
+        if colour == 'sBig':     # more than half the range of a small index type: the second one cannot be indexed any more
+            n = int(np.iinfo(self.indextype).max) // 2 + 7
+            x = payload.values('H', 1, at, dt)
+            x = np.concatenate([x] * n).astype(dt)
+            return x, x
         if colour == 'badatom':
             return np.zeros((1,) + at[:-1] + ((at[-1] + 1,) if at else (3,)), dtype=dt), None
         if colour == 'badatom0':      # zero-length subarray of the wrong atom: holds no values, still incompatible
@@ -145,6 +150,8 @@ class RaggedSys(System):
                 (('iterappend', 's1s0s2'), 3), (('iterappend', 'gen'), 2), (('iterappend', 'zeros'), 2)]
         if self.dtype.itemsize > 1:
             grow.append((('append', 'sE'), 1))
+        if 'big' in self.features:
+            grow.append((('append', 'sBig'), 1))
         if 'long' in self.features:      # C08: only what the README depends on
             grow = [(('append', 's1'), 1), (('append', 's0'), 1), (('iterappend', 'z1'), 2)]
         for op, k in grow:
@@ -218,8 +225,11 @@ class RaggedSys(System):
                 objs = [i[0] for i in its]
                 arg = (o for o in objs) if spec == 'gen' else objs
                 call = lambda: ra.iterappend(arg)
+            total = sum(len(x) for x in m.subs) + sum(len(r) for r in refs if r is not None)
             if any(r is None for r in refs):
                 expect = 'raises'
+            elif kind == 'append' and total > int(np.iinfo(self.indextype).max):
+                expect = 'raises'          # the end index does not fit the index type
             elif m.mode == 'r':
                 expect, modeblocked = 'raises', True
             else:
